@@ -420,14 +420,14 @@ func c16HasKind(c *c16Case, k string) bool {
 }
 
 type c16Mismatch struct {
-	ID     int       `json:"id"`
-	Case   int       `json:"case"`
-	Via    string    `json:"via"`
-	Chunks []int     `json:"chunks"`
-	Want   []c16Res  `json:"want"`
-	Got    []c16Res  `json:"got"`
-	Single []c16Res  `json:"got_single_bytes"`
-	C      *c16Case  `json:"c"`
+	ID     int      `json:"id"`
+	Case   int      `json:"case"`
+	Via    string   `json:"via"`
+	Chunks []int    `json:"chunks"`
+	Want   []c16Res `json:"want"`
+	Got    []c16Res `json:"got"`
+	Single []c16Res `json:"got_single_bytes"`
+	C      *c16Case `json:"c"`
 }
 
 // c16Recorder writes case/line events, sharded by id.
@@ -753,7 +753,7 @@ type c16Gen struct {
 }
 
 func (g *c16Gen) add(it c16Item) { g.items = append(g.items, it) }
-func (g *c16Gen) p(pct int) bool  { return g.rng.Intn(100) < pct }
+func (g *c16Gen) p(pct int) bool { return g.rng.Intn(100) < pct }
 
 func (g *c16Gen) plainCsi() c16Item {
 	switch g.rng.Intn(9) {
